@@ -1,6 +1,6 @@
 SPECIFICATION Spec
 CONSTANTS
   MaxToks = 2
-INVARIANTS TypeOK Decided
+INVARIANTS TypeOK Decided Covered
 PROPERTIES NoStuck
 CHECK_DEADLOCK FALSE
